@@ -320,6 +320,39 @@ def bfStep (c : BFCfg) (execVal : Nat) (s : S) : Op → Res
       | (s', outs) => (s', outs, none)
     | (ps, false, none) => ({ s with pilots := ps }, [], none)
 
+/-! ### one state notification naming several pilots -/
+
+def stateOf (ps : List Pilot) (pid : Nat) : Option Nat :=
+  match findPilot ps pid with | some p => p.state | none => none
+
+def inWindow (c : BFCfg) (v : Option Nat) : Bool :=
+  match v with | some x => decide (c.startVal ≤ x) && decide (x ≤ c.stopVal) | none => false
+
+/-- `_update_pilot_states`: the states of all pilots the notification names are recorded (after progress), the pilots
+    whose state changed are collected -/
+def touchAll : List Pilot → List (Nat × Option Nat) → List Pilot × List Nat
+  | ps, []             => (ps, [])
+  | ps, (pid, v) :: us =>
+    match touchAll (touchPilot ps pid v) us with
+    | (ps', ch) => (ps', if stateOf ps pid = v then ch else pid :: ch)
+
+/-- `Backfilling.update_pilots` over the pilots whose state changed: with `anyEligible` (the loop skips a pilot outside the
+    window with `continue` and stops at the first one inside: what the translator reads from the source) a pass is
+    triggered iff SOME updated pilot is inside the window; the alternative shown for contrast lets the last one decide -/
+def bfTrigger (anyEligible : Bool) (c : BFCfg) (ps : List Pilot) (changed : List Nat) : Bool :=
+  if anyEligible then changed.any (fun pid => inWindow c (stateOf ps pid))
+  else match changed.getLast? with
+       | some pid => inWindow c (stateOf ps pid)
+       | none     => false
+
+def bfPilotStates (anyEligible : Bool) (c : BFCfg) (s : S) (ups : List (Nat × Option Nat)) : Res :=
+  match touchAll s.pilots ups with
+  | (ps, ch) =>
+    if bfTrigger anyEligible c ps ch then
+      match bfSchedule c { s with pilots := ps } with
+      | (s', outs) => (s', outs, none)
+    else ({ s with pilots := ps }, [], none)
+
 def bfRun (c : BFCfg) (execVal : Nat) : S → List Op → S × List Out
   | s, []        => (s, [])
   | s, op :: ops =>
